@@ -503,8 +503,9 @@ def parse_authority(authority: bytes) -> list[Node]:
             )
         )
         offset += len(username)
+    if b":" in userinfo:
+        offset += 1  # for the : (present even when the password is empty)
     if password:
-        offset += 1  # for the :
         out.append(
             Node(
                 "network.url.password",
@@ -516,8 +517,8 @@ def parse_authority(authority: bytes) -> list[Node]:
         )
     if not host:
         return out
-    if userinfo:
-        offset += 1  # for the @
+    if b"@" in authority:
+        offset += 1  # for the @ (present even when the userinfo is empty)
     host = unquote_to_bytes(host)
     if host.startswith(b"["):
         if not host.endswith(b"]"):
